@@ -40,8 +40,8 @@ structure IVal (K : Type) where
 deriving Repr, Inhabited
 
 def IVal.b {K : Type} (A : IVal K) : Bnd K := ⟨A.lo, A.hi⟩
-/-- `Interval(const I& i, bool maybe_nan)` -/
-def IVal.of {K : Type} (b : Bnd K) (mn : Bool) : IVal K := ⟨b.lo, b.hi, mn⟩
+/-- pre-fix `Interval(const I& i, bool maybe_nan)` (kept for the `…Old` theorems) -/
+def IVal.ofOld {K : Type} (b : Bnd K) (mn : Bool) : IVal K := ⟨b.lo, b.hi, mn⟩
 
 namespace FVal
 variable {K : Type}
@@ -60,6 +60,15 @@ def isInf : FVal K → Bool
 /-- `std::isfinite` -/
 def isFinite : FVal K → Bool
   | fin _ => true | _ => false
+
+end FVal
+
+/-- `Interval(const I& i, bool maybe_nan)`: a result with a NaN bound is flagged -/
+def IVal.of {K : Type} (b : Bnd K) (mn : Bool) : IVal K :=
+  ⟨b.lo, b.hi, mn || b.lo.isNan || b.hi.isNan⟩
+
+namespace FVal
+variable {K : Type}
 
 section order
 variable [LT K] [LE K] [DecidableLT K] [DecidableLE K]
@@ -81,6 +90,8 @@ def le : FVal K → FVal K → Bool
 /-- IEEE `>` and `>=` -/
 def gt (a b : FVal K) : Bool := lt b a
 def ge (a b : FVal K) : Bool := le b a
+/-- IEEE `==` -/
+def feq (a b : FVal K) : Bool := le a b && le b a
 
 /-- `fmin(x, y)` of libm: the other operand if one is NaN -/
 def fmin (a b : FVal K) : FVal K :=
@@ -177,8 +188,8 @@ structure BoostOps (K : Type) where
   nthRoot : Bnd K → Int → Bnd K
   /-- `usedA *= -1` -/
   mulNeg1 : Bnd K → Bnd K
-  /-- `b.i * float(quotientInt)` -/
-  mulInt : Bnd K → Int → Bnd K
+  /-- `b.i * quotientInt` (interval times a float) -/
+  mulF : Bnd K → FVal K → Bnd K
   /-- `I::empty()` -/
   empty : Bnd K
   /-- `I(-M_PI/2, M_PI/2)` -/
@@ -191,8 +202,8 @@ structure BoostOps (K : Type) where
   negPi : FVal K
   /-- `int(x)` (C++ float → int conversion) -/
   toInt : FVal K → Int
-  /-- `static_cast<int>(std::floor(x))` -/
-  floorInt : FVal K → Int
+  /-- `std::floor(x)` -/
+  floorF : FVal K → FVal K
   /-- `std::isnan(std::pow(0.0f, -1.0f))` -/
   nanOnZeroToNeg : Bool
   /-- `std::isnan(std::pow(-1.0f, bPt))` -/
@@ -232,7 +243,7 @@ def imul (A B : IVal K) : IVal K :=
 def isub (A B : IVal K) : IVal K :=
   let u := A.mn || B.mn ||
     (A.lo.isNinf && B.lo.isNinf) ||
-    (A.hi.isNinf && B.hi.isNinf)
+    (A.hi.isPinf && B.hi.isPinf)
   IVal.of (Bo.sub A.b B.b) u
 
 /-- `operator/` -/
@@ -284,19 +295,22 @@ def ipow (A B : IVal K) : IVal K :=
   let bPt := Bo.toInt B.lo
   let out := Bo.powi A.b bPt
   let aZero := le A.lo zeroV && ge A.hi zeroV
+  let out := if aZero && decide (bPt < 0) then wholeB else out
   let u := A.mn || B.mn ||
     (aZero && (bPt == 0 || (decide (bPt < 0) && Bo.nanOnZeroToNeg))) ||
     (lt A.lo zeroV && Bo.powM1IsNan bPt)
   IVal.of out u
 
-/-- `bPt & 2` is non-zero (two's complement) -/
+/-- `bPt & 2` is non-zero (two's complement; the pre-fix test) -/
 def bit1 (k : Int) : Bool := (k / 2) % 2 != 0
+/-- `bPt & 1` is non-zero -/
+def bit0 (k : Int) : Bool := k % 2 != 0
 
 /-- `Interval::nth_root` -/
 def inthRoot (A B : IVal K) : IVal K :=
   let bPt := Bo.toInt B.lo
   let i := Bo.nthRoot A.b bPt
-  let u := A.mn || B.mn || (le A.lo zeroV && !(bit1 bPt))
+  let u := A.mn || B.mn || (lt A.lo zeroV && !(bit0 bPt))
   IVal.of i u
 
 /-- `(b.upper() >= 0.0f) + 2 * (b.lower() <= 0.0f)` -/
@@ -316,12 +330,13 @@ def imod (A B : IVal K) : IVal K :=
         let usedA := if p == 2 then Bo.mulNeg1 A.b else A.b
         let absB := Bo.abs B.b
         let quotients := Bo.div usedA absB
-        let quotientInt := Bo.floorInt quotients.lo
-        if quotientInt == Bo.floorInt quotients.hi then
-          Bo.sub A.b (Bo.mulInt B.b quotientInt)
+        let quotientInt := Bo.floorF quotients.lo
+        if quotientInt.isFinite && feq quotientInt (Bo.floorF quotients.hi) then
+          Bo.sub A.b (Bo.mulF B.b quotientInt)
         else out0
     else out0
-  let u := ge B.hi zeroV && le B.lo zeroV
+  let u := A.mn || B.mn || (ge B.hi zeroV && le B.lo zeroV) ||
+    A.lo.isInf || A.hi.isInf || B.lo.isInf || B.hi.isInf
   IVal.of out u
 
 /-- `Interval::nanfill` -/
@@ -330,16 +345,17 @@ def inanfill (A B : IVal K) : IVal K :=
 
 /-- `Interval::compare` -/
 def icompare (A B : IVal K) : IVal K :=
-  if lt A.hi B.lo then ⟨negOneV, negOneV, false⟩
+  if A.mn || B.mn then ⟨negOneV, oneV, false⟩
+  else if lt A.hi B.lo then ⟨negOneV, negOneV, false⟩
   else if gt A.lo B.hi then ⟨oneV, oneV, false⟩
   else ⟨negOneV, oneV, false⟩
 
 def isquare (A : IVal K) : IVal K := IVal.of (Bo.square A.b) A.mn
 def isqrt (A : IVal K) : IVal K := IVal.of (Bo.sqrt A.b) (A.mn || lt A.lo zeroV)
 def ineg (A : IVal K) : IVal K := IVal.of (Bo.neg A.b) A.mn
-def isin (A : IVal K) : IVal K := IVal.of (Bo.sin A.b) A.mn
-def icos (A : IVal K) : IVal K := IVal.of (Bo.cos A.b) A.mn
-def itan (A : IVal K) : IVal K := IVal.of (Bo.tan A.b) A.mn
+def isin (A : IVal K) : IVal K := IVal.of (Bo.sin A.b) (A.mn || A.lo.isInf || A.hi.isInf)
+def icos (A : IVal K) : IVal K := IVal.of (Bo.cos A.b) (A.mn || A.lo.isInf || A.hi.isInf)
+def itan (A : IVal K) : IVal K := IVal.of (Bo.tan A.b) (A.mn || A.lo.isInf || A.hi.isInf)
 def iasin (A : IVal K) : IVal K :=
   IVal.of (Bo.asin A.b) (A.mn || lt A.lo negOneV || gt A.hi oneV)
 def iacos (A : IVal K) : IVal K :=
@@ -348,9 +364,13 @@ def iatan (A : IVal K) : IVal K :=
   let i := if A.lo.isInf || A.hi.isInf then Bo.atanWhole else Bo.atan A.b
   IVal.of i A.mn
 def iexp (A : IVal K) : IVal K := IVal.of (Bo.exp A.b) A.mn
-def ilog (A : IVal K) : IVal K := IVal.of (Bo.log A.b) (A.mn || lt A.lo zeroV)
+def ilog (A : IVal K) : IVal K :=
+  let u := A.mn || lt A.lo zeroV
+  if feq A.hi zeroV then IVal.of ⟨ninf, ninf⟩ u else IVal.of (Bo.log A.b) u
 def iabs (A : IVal K) : IVal K := IVal.of (Bo.abs A.b) A.mn
-def irecip (A : IVal K) : IVal K := IVal.of (Bo.oneDiv A.b) A.mn
+def irecip (A : IVal K) : IVal K :=
+  let i := if le A.lo zeroV && ge A.hi zeroV then wholeB else Bo.oneDiv A.b
+  IVal.of i A.mn
 
 /-- `IntervalEvaluator::operator()` -/
 def iop (op : Op) (A B : IVal K) : IVal K :=
